@@ -49,7 +49,8 @@ DOCS = [
     # would be paired into one edit by the matcher)
     ({'t': 'line1\nline2', 'x': '<a&b>"q"', 'u': '\u00e9\u4e2d', 'lst': ['x', 'r1\nr2'], 'lst2': ['y']},
      {'t': 'line1\nline3\n', 'x': '<a&c>\'q\'', 'u': '\u00e8', 'lst': ['x'], 'lst2': ['y', 'p\nq\n']}),
-    ({'i': -1, 'f': 1.5, 'big': 2 ** 40, 'b': False}, {'i': 1, 'f': -2.25, 'big': 2 ** 40 + 1, 'b': True}),
+    ({'i': -1, 'f': 1.5, 'big': 2 ** 40, 'b': False, 'nan': float('nan'), 'inf': float('inf'), 'blank': ' ', 'tab': '\t x', 'lines': 'a\n  \nb'},
+     {'i': 1, 'f': -2.25, 'big': 2 ** 40 + 1, 'b': True, 'nan': float('nan'), 'inf': float('-inf'), 'blank': '   ', 'gone': ' ', 'lines': 'a\n \nc'}),
     ({'colour': [1, 2], 'name': 'x', 'same': 'y'}, {'color': [1, 2], 'nome': 'x', 'same': 'y'}),
     # containers with more than ten members (abbreviating reprs, column layouts and the like have thresholds)
     (dict({f'k{i:02d}': i for i in range(12)}, gone=1, lst=list(range(12))), dict({f'k{i:02d}': i for i in range(12)}, new=2, lst=list(range(1, 13)))),
